@@ -80,6 +80,15 @@ func cntApplyAll(ct content.Type, v pdf.Version, ops []content.Operator) (line s
 	line = "ok " + cntShowState(st)
 	startObj := st.CurrentObject
 	closers := st.ClosingOperators()
+	closersCopy := append([]content.OpName(nil), closers...)
+	defer func() {
+		// a slice handed out by the library does not change when the library is used further
+		for i := range closersCopy {
+			if closers[i] != closersCopy[i] {
+				oracleOK, detail = false, fmt.Sprintf("the slice returned by ClosingOperators changed while the operators were applied: %v, was %v", closers, closersCopy)
+			}
+		}
+	}()
 	for i, n := range closers {
 		if err := cntApply(st, n, nil); err != nil {
 			return line + fmt.Sprintf(" closing-rej %d", i), true, false,
@@ -308,6 +317,165 @@ func runCNTState(c *Ctx) {
 	}
 }
 
+// cntBuilderPick chooses the next Builder call, steered towards accepted
+// programs: context-appropriate calls, close only what is open, respect the
+// restrictions of uncoloured contexts and of q/Q inside text before PDF 2.0.
+func cntBuilderPick(b *builder.Builder, r *Rand, v pdf.Version) string {
+	var ctx []string
+	switch b.State.CurrentObject {
+	case content.ObjPage:
+		ctx = []string{"Push", "Push", "Pop", "TextBegin", "MoveTo", "Rectangle", "Circle", "MCStart", "MCEnd", "MCPoint", "LineWidth", "LineCap", "LineJoin", "Dash", "Dash0", "Miter", "Transform", "FillGray", "StrokeRGB", "Image", "Leading", "Flatness"}
+	case content.ObjPath:
+		ctx = []string{"LineTo", "LineTo", "CurveTo", "ClosePath", "Rectangle", "MoveTo", "Stroke", "Fill", "FillEvenOdd", "FillAndStroke", "CloseAndStroke", "CloseFillAndStroke", "EndPath", "ClipNonZero", "ClipEvenOdd"}
+	case content.ObjClippingPath:
+		ctx = []string{"EndPath", "EndPath", "Fill", "Stroke"}
+	case content.ObjText:
+		ctx = []string{"TextEnd", "TextEnd", "FirstLine", "SecondLine", "TextMatrix", "NextLine", "ShowRaw", "ShowKerned", "ShowNextLine", "ShowSpaced", "Leading", "CharSpacing", "Push", "Pop", "MCStart", "MCEnd", "FillGray"}
+	case content.ObjType3Start:
+		ctx = []string{"D0", "D1", "CharSpacing"}
+	}
+	call := Pick(r, ctx)
+	// steer towards accepted programs: close only what is open, respect the
+	// restrictions of uncoloured contexts and of q/Q inside text before PDF 2.0
+	for tries := 0; tries < 20; tries++ {
+		nest := b.State.VerifNesting()
+		bad := false
+		switch call {
+		case "Pop":
+			bad = !strings.Contains(nest, "1") || (v < pdf.V2_0 && b.State.CurrentObject == content.ObjText)
+		case "Push":
+			bad = v < pdf.V2_0 && (b.State.CurrentObject == content.ObjText || b.State.VerifStackDepth() >= 28)
+		case "MCEnd":
+			bad = !strings.Contains(nest, "3")
+		case "FillGray", "StrokeRGB", "Image":
+			bad = b.State.ColorOpsForbidden
+		}
+		if !bad {
+			break
+		}
+		call = Pick(r, ctx)
+	}
+	if r.P(1, 40) {
+		call = Pick(r, []string{"Push", "Pop", "TextBegin", "TextEnd", "MoveTo", "LineTo", "Stroke", "Fill", "EndPath", "MCEnd", "ShowRaw", "D0", "ClipNonZero", "Image"})
+	}
+	return call
+}
+
+// cntBuilderDo performs one Builder call.  Byte slices handed to the methods
+// which document that they clone their argument are overwritten afterwards
+// (the caller reuses its buffer); afterCall runs between the library call and
+// that overwrite.
+func cntBuilderDo(b *builder.Builder, r *Rand, call string, afterCall func()) {
+	f := func() float64 { return float64(r.Intn(400)-200) / 4 }
+	var scribble [][]byte
+	buf := func(n int) pdf.String {
+		x := genBytes(r, n)
+		scribble = append(scribble, x)
+		return pdf.String(x)
+	}
+	switch call {
+	case "Push":
+		b.PushGraphicsState()
+	case "Pop":
+		b.PopGraphicsState()
+	case "TextBegin":
+		b.TextBegin()
+	case "TextEnd":
+		b.TextEnd()
+	case "MoveTo":
+		b.MoveTo(f(), f())
+	case "LineTo":
+		b.LineTo(f(), f())
+	case "CurveTo":
+		b.CurveTo(f(), f(), f(), f(), f(), f())
+	case "ClosePath":
+		b.ClosePath()
+	case "Rectangle":
+		b.Rectangle(f(), f(), f(), f())
+	case "Circle":
+		b.Circle(f(), f(), 1+float64(r.Intn(20)))
+	case "Stroke":
+		b.Stroke()
+	case "Fill":
+		b.Fill()
+	case "FillEvenOdd":
+		b.FillEvenOdd()
+	case "FillAndStroke":
+		b.FillAndStroke()
+	case "CloseAndStroke":
+		b.CloseAndStroke()
+	case "CloseFillAndStroke":
+		b.CloseFillAndStroke()
+	case "EndPath":
+		b.EndPath()
+	case "ClipNonZero":
+		b.ClipNonZero()
+	case "ClipEvenOdd":
+		b.ClipEvenOdd()
+	case "MCStart":
+		b.MarkedContentStart(&graphics.MarkedContent{Tag: genName(r)})
+	case "MCPoint":
+		b.MarkedContentPoint(&graphics.MarkedContent{Tag: genName(r)})
+	case "MCEnd":
+		b.MarkedContentEnd()
+	case "LineWidth":
+		b.SetLineWidth(float64(r.Intn(40)) / 4)
+	case "LineCap":
+		b.SetLineCap(graphics.LineCapStyle(r.Intn(3)))
+	case "LineJoin":
+		b.SetLineJoin(graphics.LineJoinStyle(r.Intn(3)))
+	case "Dash":
+		b.SetLineDash([]float64{1 + float64(r.Intn(5)), 2}, float64(r.Intn(3)))
+	case "Dash0":
+		b.SetLineDash(nil, 0)
+	case "Miter":
+		b.SetMiterLimit(1 + float64(r.Intn(10)))
+	case "Flatness":
+		b.SetFlatnessTolerance(float64(r.Intn(100)))
+	case "Transform":
+		b.Transform(matrix.Matrix{1, 0, 0, 1, f(), f()})
+	case "FillGray":
+		b.SetFillColor(color.DeviceGray(float64(r.Intn(5)) / 4))
+	case "StrokeRGB":
+		b.SetStrokeColor(color.DeviceRGB{0.5, float64(r.Intn(3)) / 2, 1})
+	case "Image":
+		img := cntGenImage(r, false)
+		b.DrawInlineImageRaw(img.Args[0].(pdf.Dict), []byte(img.Args[1].(pdf.String)))
+	case "Leading":
+		b.TextSetLeading(f())
+	case "CharSpacing":
+		b.TextSetCharacterSpacing(f())
+	case "FirstLine":
+		b.TextFirstLine(f(), f())
+	case "SecondLine":
+		b.TextSecondLine(f(), f())
+	case "TextMatrix":
+		b.TextSetMatrix(matrix.Matrix{1, 0, 0, 1, f(), f()})
+	case "NextLine":
+		b.TextNextLine()
+	case "ShowRaw":
+		b.TextShowRaw(buf(12))
+	case "ShowKerned":
+		b.TextShowKernedRaw(buf(6), pdf.Integer(-50), buf(6), pdf.Real(0.5))
+	case "ShowNextLine":
+		b.TextShowNextLineRaw(buf(12))
+	case "ShowSpaced":
+		b.TextShowSpacedRaw(f(), f(), buf(12))
+	case "D0":
+		b.Type3ColoredGlyph(f(), 0)
+	case "D1":
+		b.Type3UncoloredGlyph(f(), 0, 0, 0, 10, 10)
+	}
+	if afterCall != nil {
+		afterCall()
+	}
+	for _, x := range scribble {
+		for i := range x {
+			x[i] ^= 0x55
+		}
+	}
+}
+
 func runCNTBuilderCase(c *Ctx, r *Rand, ct content.Type, v pdf.Version, sample bool) {
 	var calls []string
 	var b *builder.Builder
@@ -316,139 +484,10 @@ func runCNTBuilderCase(c *Ctx, r *Rand, ct content.Type, v pdf.Version, sample b
 		defer func() { panicked = recover() }()
 		b = builder.New(ct, nil, v)
 		n := 2 + r.Intn(30)
-		f := func() float64 { return float64(r.Intn(400)-200) / 4 }
 		for i := 0; i < n && b.Err == nil; i++ {
-			var ctx []string
-			switch b.State.CurrentObject {
-			case content.ObjPage:
-				ctx = []string{"Push", "Push", "Pop", "TextBegin", "MoveTo", "Rectangle", "Circle", "MCStart", "MCEnd", "MCPoint", "LineWidth", "LineCap", "LineJoin", "Dash", "Dash0", "Miter", "Transform", "FillGray", "StrokeRGB", "Image", "Leading", "Flatness"}
-			case content.ObjPath:
-				ctx = []string{"LineTo", "LineTo", "CurveTo", "ClosePath", "Rectangle", "MoveTo", "Stroke", "Fill", "FillEvenOdd", "FillAndStroke", "CloseAndStroke", "CloseFillAndStroke", "EndPath", "ClipNonZero", "ClipEvenOdd"}
-			case content.ObjClippingPath:
-				ctx = []string{"EndPath", "EndPath", "Fill", "Stroke"}
-			case content.ObjText:
-				ctx = []string{"TextEnd", "TextEnd", "FirstLine", "SecondLine", "TextMatrix", "NextLine", "ShowRaw", "ShowKerned", "ShowNextLine", "ShowSpaced", "Leading", "CharSpacing", "Push", "Pop", "MCStart", "MCEnd", "FillGray"}
-			case content.ObjType3Start:
-				ctx = []string{"D0", "D1", "CharSpacing"}
-			}
-			call := Pick(r, ctx)
-			// steer towards accepted programs: close only what is open, respect the
-			// restrictions of uncoloured contexts and of q/Q inside text before PDF 2.0
-			for tries := 0; tries < 20; tries++ {
-				nest := b.State.VerifNesting()
-				bad := false
-				switch call {
-				case "Pop":
-					bad = !strings.Contains(nest, "1") || (v < pdf.V2_0 && b.State.CurrentObject == content.ObjText)
-				case "Push":
-					bad = v < pdf.V2_0 && (b.State.CurrentObject == content.ObjText || b.State.VerifStackDepth() >= 28)
-				case "MCEnd":
-					bad = !strings.Contains(nest, "3")
-				case "FillGray", "StrokeRGB", "Image":
-					bad = b.State.ColorOpsForbidden
-				}
-				if !bad {
-					break
-				}
-				call = Pick(r, ctx)
-			}
-			if r.P(1, 40) {
-				call = Pick(r, []string{"Push", "Pop", "TextBegin", "TextEnd", "MoveTo", "LineTo", "Stroke", "Fill", "EndPath", "MCEnd", "ShowRaw", "D0", "ClipNonZero", "Image"})
-			}
+			call := cntBuilderPick(b, r, v)
 			calls = append(calls, call)
-			switch call {
-			case "Push":
-				b.PushGraphicsState()
-			case "Pop":
-				b.PopGraphicsState()
-			case "TextBegin":
-				b.TextBegin()
-			case "TextEnd":
-				b.TextEnd()
-			case "MoveTo":
-				b.MoveTo(f(), f())
-			case "LineTo":
-				b.LineTo(f(), f())
-			case "CurveTo":
-				b.CurveTo(f(), f(), f(), f(), f(), f())
-			case "ClosePath":
-				b.ClosePath()
-			case "Rectangle":
-				b.Rectangle(f(), f(), f(), f())
-			case "Circle":
-				b.Circle(f(), f(), 1+float64(r.Intn(20)))
-			case "Stroke":
-				b.Stroke()
-			case "Fill":
-				b.Fill()
-			case "FillEvenOdd":
-				b.FillEvenOdd()
-			case "FillAndStroke":
-				b.FillAndStroke()
-			case "CloseAndStroke":
-				b.CloseAndStroke()
-			case "CloseFillAndStroke":
-				b.CloseFillAndStroke()
-			case "EndPath":
-				b.EndPath()
-			case "ClipNonZero":
-				b.ClipNonZero()
-			case "ClipEvenOdd":
-				b.ClipEvenOdd()
-			case "MCStart":
-				b.MarkedContentStart(&graphics.MarkedContent{Tag: genName(r)})
-			case "MCPoint":
-				b.MarkedContentPoint(&graphics.MarkedContent{Tag: genName(r)})
-			case "MCEnd":
-				b.MarkedContentEnd()
-			case "LineWidth":
-				b.SetLineWidth(float64(r.Intn(40)) / 4)
-			case "LineCap":
-				b.SetLineCap(graphics.LineCapStyle(r.Intn(3)))
-			case "LineJoin":
-				b.SetLineJoin(graphics.LineJoinStyle(r.Intn(3)))
-			case "Dash":
-				b.SetLineDash([]float64{1 + float64(r.Intn(5)), 2}, float64(r.Intn(3)))
-			case "Dash0":
-				b.SetLineDash(nil, 0)
-			case "Miter":
-				b.SetMiterLimit(1 + float64(r.Intn(10)))
-			case "Flatness":
-				b.SetFlatnessTolerance(float64(r.Intn(100)))
-			case "Transform":
-				b.Transform(matrix.Matrix{1, 0, 0, 1, f(), f()})
-			case "FillGray":
-				b.SetFillColor(color.DeviceGray(float64(r.Intn(5)) / 4))
-			case "StrokeRGB":
-				b.SetStrokeColor(color.DeviceRGB{0.5, float64(r.Intn(3)) / 2, 1})
-			case "Image":
-				img := cntGenImage(r, false)
-				b.DrawInlineImageRaw(img.Args[0].(pdf.Dict), []byte(img.Args[1].(pdf.String)))
-			case "Leading":
-				b.TextSetLeading(f())
-			case "CharSpacing":
-				b.TextSetCharacterSpacing(f())
-			case "FirstLine":
-				b.TextFirstLine(f(), f())
-			case "SecondLine":
-				b.TextSecondLine(f(), f())
-			case "TextMatrix":
-				b.TextSetMatrix(matrix.Matrix{1, 0, 0, 1, f(), f()})
-			case "NextLine":
-				b.TextNextLine()
-			case "ShowRaw":
-				b.TextShowRaw(pdf.String(genBytes(r, 12)))
-			case "ShowKerned":
-				b.TextShowKernedRaw(pdf.String(genBytes(r, 6)), pdf.Integer(-50), pdf.String(genBytes(r, 6)), pdf.Real(0.5))
-			case "ShowNextLine":
-				b.TextShowNextLineRaw(pdf.String(genBytes(r, 12)))
-			case "ShowSpaced":
-				b.TextShowSpacedRaw(f(), f(), pdf.String(genBytes(r, 12)))
-			case "D0":
-				b.Type3ColoredGlyph(f(), 0)
-			case "D1":
-				b.Type3UncoloredGlyph(f(), 0, 0, 0, 10, 10)
-			}
+			cntBuilderDo(b, r, call, nil)
 		}
 	}()
 	key := fmt.Sprintf("b:%d:%d:%s", ct, v, strings.Join(calls, ","))
